@@ -450,6 +450,10 @@ theorem inv_step (st : State) (op : Op) (h : Inv st) : Inv (step st op).1 := by
       · rename_i hd
         exact inv_setColl st c _ h (fresh_build _ hd)
       · exact h
+  | invalidate c =>
+    cases c with
+    | none => exact ⟨fresh_none _, h.2⟩
+    | some c => exact inv_setColl st c _ h (fresh_none _)
 
 theorem inv_run (ops : List Op) (st : State) (h : Inv st) : Inv (run st ops) := by
   induction ops generalizing st with
@@ -527,6 +531,10 @@ theorem keysOK_step (st : State) (op : Op) (h : KeysOK st) : KeysOK (step st op)
     · split
       · exact keysOK_setColl st c _ h (keysOK_collOf st c h)
       · exact h
+  | invalidate c =>
+    cases c with
+    | none => exact ⟨h.1, h.2⟩
+    | some c => exact keysOK_setColl st c _ h (keysOK_collOf st c h)
 
 theorem keysOK_run (ops : List Op) (st : State) (h : KeysOK st) : KeysOK (run st ops) := by
   induction ops generalizing st with
